@@ -420,6 +420,14 @@ def _rank_class(key):
     return "note" if key == "note" else "lookalike"
 
 
+def _str_enum(keys):
+    from enum import Enum
+
+    uniq = list(dict.fromkeys(keys))
+    E = Enum("QualifierKey", [(f"K{j}", k) for j, k in enumerate(uniq)], type=str)
+    return {k: E(k) for k in uniq}
+
+
 def run_extract(case, ctx):
     from inscripta.biocantor.io.features import extract_feature_name_id
 
@@ -464,6 +472,16 @@ def run_extract(case, ctx):
         if look_vals and (got[0] in look_vals or got[1] in look_vals):
             ctx.violation("extract.lookalike-ignored", key=("lookalike-used",), q=[list(p) for p in perm], got=list(got))
         answers.setdefault(got, perm)
+    # the same dictionaries keyed by members of a str-valued enumeration (they are strings: equal to, hashing like and matching like their
+    # values - the GenBank / GFF3 constants of the library are such enumerations): the answer is that of the plain-string dictionary
+    enum_keys = _str_enum(keys)
+    for perm in (items, items[::-1]):
+        plain = dict(perm)
+        q = {enum_keys[k]: v for k, v in perm}
+        want, e0 = ctx.call(extract_feature_name_id, plain)
+        got, e1 = ctx.call(extract_feature_name_id, q)
+        ctx.check("extract.priority", e0 is None and e1 is None and got == want, key=("str-enum-keys", "raised" if e1 else "differs-from-plain-keys"),
+                  q=[list(p) for p in perm], got=list(got) if got else None, want=list(want) if want else None, exc=repr(e1)[:150] if e1 else None)
     ctx.seen("extract.priority", n_calls)
     if has_note:
         ctx.seen("extract.note-fallback", n_calls)
@@ -556,6 +574,13 @@ def run_types(case, ctx):
         if got - want or r is not None and set(r) != want:
             src = sorted({k for k, v in perm if set(v) & (got - want)})
             ctx.violation("types.exact", key=("extra", tuple(src)), q=[list(p) for p in perm], initial=initial, got=sorted(got), want=sorted(want))
+    enum_keys = _str_enum(keys)
+    got = set(initial)
+    _, e1 = ctx.call(extract_feature_types, got, {enum_keys[k]: v for k, v in items})
+    want = ref_types(initial, dict(items))
+    ctx.check("types.complete", e1 is None and want <= got, key=("str-enum-keys",), q=[list(p) for p in items], got=sorted(got), want=sorted(want),
+              exc=repr(e1)[:150] if e1 else None)
+    ctx.check("types.exact", e1 is not None or got <= want, key=("str-enum-keys",), q=[list(p) for p in items], got=sorted(got), want=sorted(want))
     ctx.seen("types.complete", n)
     ctx.seen("types.exact", n)
     ctx.bump("types.orderings", n)
@@ -641,6 +666,61 @@ def run_merge(case, ctx):
         want_m = {k: set(v) for k, v in want.items()}
         ctx.check("ivmerge.union", e3 is None and isinstance(m, dict) and {k: set(v) for k, v in m.items()} == want_m,
                   key=("ivmerge", type(iv).__name__), a=a2, b=b2, got=m, want=want_m, exc=repr(e3)[:200] if e3 else None)
+
+
+    _export_with_identifier_keys(ctx, rng, a, b)
+
+
+def _export_with_identifier_keys(ctx, rng, a, b):
+    """export_qualifiers(parent) of an interval whose own qualifiers already use the keys its identifier attributes are exported under
+    (legacy files carry transcript_id / feature_name qualifiers): the result is the key-wise union of own qualifiers, parent qualifiers and
+    identifier attributes; the interval, its dictionary and the parent dictionary are what they were; asking again gives the same."""
+    from inscripta.biocantor.gene import FeatureInterval, TranscriptInterval, Biotype
+    from inscripta.biocantor.location.strand import Strand
+
+    vals = sorted({x for _, v in a + b for x in v}) or ["v"]
+    for cls in ("feature", "transcript"):
+        own = {k: list(v) for k, v in a}
+        if cls == "feature":
+            idents = {"feature_name": "primary-name", "feature_id": "fid-1"}
+            legacy = rng.sample(["feature_name", "feature_id"], rng.randint(1, 2))
+        else:
+            idents = {"transcript_id": "tx-1", "transcript_name": "sym-1", "transcript_biotype": "ncRNA", "protein_id": "prot-1"}
+            legacy = rng.sample(sorted(idents), rng.randint(1, 3))
+        for k in legacy:
+            own[k] = rng.sample(vals, min(len(vals), rng.randint(1, 2))) + ([idents[k]] if rng.random() < 0.3 else [])
+        if cls == "feature":
+            iv = FeatureInterval([10, 30], [20, 40], Strand.PLUS, qualifiers={k: list(v) for k, v in own.items()}, feature_name=idents["feature_name"],
+                                 feature_id=idents["feature_id"])
+        else:
+            iv = TranscriptInterval([0, 50], [30, 90], Strand.MINUS, qualifiers={k: list(v) for k, v in own.items()}, transcript_id=idents["transcript_id"],
+                                    transcript_symbol=idents["transcript_name"], transcript_type=Biotype.ncRNA, protein_id=idents["protein_id"])
+        before = iv.to_dict()
+        q_before = {k: sorted(v) for k, v in iv.qualifiers.items()}
+        parent = {k: set(v) for k, v in b}
+        if rng.random() < 0.5 and legacy:
+            parent.setdefault(legacy[0], set()).add("from-parent")
+        p_before = {k: set(v) for k, v in parent.items()}
+        want = {}
+        for src in (own, parent, {k: [v] for k, v in idents.items()}):
+            for k, v in src.items():
+                want.setdefault(k, set()).update(v)
+        for rnd in (1, 2):
+            got, exc = ctx.call(iv.export_qualifiers, parent if parent else None)
+            ok = exc is None and isinstance(got, dict) and {k: set(v) for k, v in got.items()} == want
+            ctx.check("ivmerge.union", ok, key=("export-with-identifier-keys", cls, f"round{rnd}"), own=own, parent={k: sorted(v) for k, v in p_before.items()},
+                      got={k: sorted(v) for k, v in got.items()} if isinstance(got, dict) else None, want={k: sorted(v) for k, v in want.items()},
+                      exc=repr(exc)[:150] if exc else None)
+            after = iv.to_dict()
+            ctx.check("merge.operands-unchanged", after == before and {k: sorted(v) for k, v in iv.qualifiers.items()} == q_before and parent == p_before,
+                      key=("export-with-identifier-keys", cls, "interval" if after != before else "parent-or-sets"), own=own,
+                      qualifiers_before=before.get("qualifiers"), qualifiers_after=after.get("qualifiers"))
+            if isinstance(got, dict):      # what the caller does with its copy is the caller's business
+                for v in got.values():
+                    if isinstance(v, set):
+                        v.add("caller-added")
+                ctx.check("merge.operands-unchanged", iv.to_dict() == before and parent == p_before, key=("export-with-identifier-keys", cls, "result-aliases-interval"),
+                          own=own, qualifiers_after=iv.to_dict().get("qualifiers"))
 
 
 # ---- GenBank leg ----------------------------------------------------------------------------------------------------
